@@ -1,7 +1,11 @@
 RUNNER = {"pkg": "./vflow", "test": "TestVerifPipeline", "race": False}
 
 SPEC = {
-    "corr": [{"kind": "pipeline", "quick": 160, "thorough": 6400, "runner": RUNNER}],
+    "corr": [{"kind": "pipeline", "quick": 160, "thorough": 6400, "runner": RUNNER},
+             # a stalling consumer: the queue fills, publishes are dropped by the non-blocking enqueue, the consumer recovers;
+             # still every datagram counted once, nothing published twice, every payload the solo JSON of one datagram
+             {"kind": "pipeline", "label": "pipeline-stall", "seed_offset": 53, "quick": 16, "thorough": 600, "model": False,
+              "runner": RUNNER, "env": {"VERIF_PIPE_STALL": "1"}}],
     "search_factor": 2,
     "rule": "a case = protocol (ipfix/v9/v5/sflow) x 1..64 real worker goroutines x 20..2000 datagrams (about 70 % yield a "
             "message, the rest template-less / undecodable / malformed / marshal-failing) sent over loopback UDP through the real "
